@@ -116,6 +116,21 @@ def run_recipe(C, drv, rc):
             else:
                 p_.right = ch
         check_tree(C, drv, p_, 'link-order', recipe=rc)
+    elif rc['kind'] == 'copies':
+        import gc, pickle, random as _random
+        r_ = _random.Random(rc['seed'])
+        shapes_ = T.shapes_upto(3)
+        # all source trees are built first: from here on no setter runs, trees only come to life as copies, are
+        # measured and are freed again (the next copy may reuse the freed addresses)
+        pool_ = [T.build(r_.choice(shapes_)) for _ in range(40)]
+        blobs_ = [pickle.dumps(t_) for t_ in pool_]
+        for k in range(rc['n']):
+            i_ = r_.randrange(len(pool_))
+            cpy = _copy.deepcopy(pool_[i_]) if k % 2 else pickle.loads(blobs_[i_])
+            check_tree(C, drv, cpy, 'fresh-copy', recipe=rc)
+            del cpy
+            if k % 4 != 3:
+                gc.collect()
     elif rc['kind'] == 'gp':
         import gpops, random as _random
         gp = L['kinds']['GP']()
@@ -179,6 +194,9 @@ def check(ctx):
         for k in range(40 if ctx['tier'] == 'quick' else 400):
             run_recipe(C, drv, dict(kind='gp', fa=C.rng.choice(shapes2), mo=C.rng.choice(shapes2),
                                     picks=[C.rng.randrange(1 << 20) for _ in range(4)]))
+        # trees that come to life without any setter running (deep copies, unpickled copies), measured right after
+        # other trees were measured and freed: what a tree reports depends on the tree alone
+        run_recipe(C, drv, dict(kind='copies', seed=C.rng.randrange(1 << 20), n=120 if ctx['tier'] == 'quick' else 1200))
         if ctx['tier'] == 'thorough':
             d3 = T.shapes_upto(3)
             for k in range(300):
